@@ -66,11 +66,14 @@ def tup(x):
 def main():
     job = json.loads(sys.stdin.read())
     sys.setrecursionlimit(2500)
-    for a in job["history"]:
-        process(a, partial=a[2] if len(a) > 2 else None)
+    modified = []
+    for i, a in enumerate(job["history"]):
+        _, same = process(a, partial=a[2] if len(a) > 2 else None)
+        if not same:
+            modified.append(i)
     random.seed(job["seed"])
     obs, unchanged = process(job["probe"])
-    print(json.dumps({"obs": obs, "unchanged": unchanged}))
+    print(json.dumps({"obs": obs, "unchanged": unchanged, "modified": modified}))
 
 
 if __name__ == "__main__":
